@@ -75,17 +75,17 @@ const MODEL_LINES: [(&str, &str); 18] = [
     ("0.9", "B1:N,x/BOS/EOS"), // left word -> EOS
     ("0.6", "BOS/EOS/x"),      // BOS -> right word (bare template)
     ("-0.8", "B1:N,x/"),
-    ("1.0", "a/b/c"),       // splits as (a, b/c) and as (a/b, c)
+    ("01.0", "a/b/c"),       // splits as (a, b/c) and as (a/b, c)
     ("-0.5", "B0:a/b/c"),
-    ("0.5", "B0:N/V"),
+    (".5", "B0:N/V"),       // bare decimal point
     ("-1.25", "B0:V/N"),
     ("0.0001", "B0:N/N"),   // rounds to zero
     ("2", "B0:Q/Q"),        // unmatched
     ("3", "U:N"),           // unigram line
     ("7", "B0:N/V/Z"),      // a third '/' part: not the text of any bigram feature
-    ("-0.75", "N/x"),
+    ("-.75", "N/x"),
     ("1.5", "B1:N,x/x"),
-    ("-2", "V/*"),
+    ("-2.", "V/*"),
     // features ending in a blank / U+3000 (table "trailing-blank"); toggled together in the full enumeration
     ("1.0", "N/x "),
     ("0.25", "V/\u{3000}"),
@@ -282,7 +282,7 @@ pub fn run(tier: Tier) -> i32 {
             }
         }
     }
-    rep.rule = "state = (bigram template set from 3 templates incl. optional references, right-id and left-id tables from a 10-table menu (incl. features containing a slash) (plain, 4 ids, without id 0, id 0 not BOS/EOS, gap, malformed line, unordered, '*' feature, features ending in a blank / U+3000), subset of a 14-line model.def menu (incl. BOS/EOS lines) (positive, negative, rounds to zero, unmatched, unigram line, line with a third '/' part, bare-template lines), cost factor 100/700); accepted conversions are compiled with a probe lexicon and every non-zero id pair's connection cost is compared with the sum over applicable templates of -trunc(weight x factor) of the line whose text is left expansion '/' right expansion; malformed tables must give Err, and so must 15 malformed id-line shapes (sign-prefixed, non-ASCII digit, missing space, tab, empty...) at every line position of either table; distinct = distinct (tables, templates, lines, outcome)".into();
+    rep.rule = "state = (bigram template set from 3 templates incl. optional references, right-id and left-id tables from a 10-table menu (incl. features containing a slash) (plain, 4 ids, without id 0, id 0 not BOS/EOS, gap, malformed line, unordered, '*' feature, features ending in a blank / U+3000), subset of a 14-line model.def menu (incl. BOS/EOS lines) (positive, negative, weights spelled '.5', '-.75', '-2.', '01.0', rounds to zero, unmatched, unigram line, line with a third '/' part, bare-template lines), cost factor 100/700); accepted conversions are compiled with a probe lexicon and every non-zero id pair's connection cost is compared with the sum over applicable templates of -trunc(weight x factor) of the line whose text is left expansion '/' right expansion; malformed tables must give Err, and so must 15 malformed id-line shapes (sign-prefixed, non-ASCII digit, missing space, tab, empty...) at every line position of either table; distinct = distinct (tables, templates, lines, outcome)".into();
     rep.bounds = json!({"id_tables": tables.len(), "template_sets": tsets.len(), "model_line_subsets": nmask});
     rep.finish(st, &["malformed_id_tables", "malformed_id_lines", "conversions_accepted", "id_pairs_with_nonzero_cost"])
 }
